@@ -629,12 +629,17 @@ func NewAddressPubKey(serializedPubKey []byte, net *chaincfg.Params) (*AddressPu
 	// from bchec, but do it here to avoid API churn.  We already know the
 	// pubkey is valid since it parsed above, so it's safe to simply examine
 	// the leading byte to get the format.
-	pkFormat := PKFUncompressed
+	var pkFormat PubKeyFormat
 	switch serializedPubKey[0] {
 	case 0x02, 0x03:
 		pkFormat = PKFCompressed
+	case 0x04:
+		pkFormat = PKFUncompressed
 	case 0x06, 0x07:
 		pkFormat = PKFHybrid
+	default:
+		// bchec masks the low bit of the format byte, so e.g. 0x05 parses
+		return nil, errors.New("invalid pubkey format byte")
 	}
 
 	return &AddressPubKey{
